@@ -52,7 +52,7 @@ func (d *TaggedDigest) Unmarshal(r io.Reader) error {
 		return fmt.Errorf("unsupported digest algorithm %d", d.AlgID)
 	}
 	d.Digest = make([]byte, algSize)
-	if n, err := r.Read(d.Digest); err != nil || n != int(algSize) {
+	if n, err := io.ReadFull(r, d.Digest); err != nil {
 		return fmt.Errorf("failed to read digest sized %d (read %d bytes): %v", algSize, n, err)
 	}
 	return nil
